@@ -1,19 +1,47 @@
 /-
   C05 — lookahead, cloning and sub-lexing are unobservable in the token stream.
-  INTERIM file: proved here, for every scanner and filter table —
-  (1) a lookahead on a lexer that already holds one changes nothing at all;
-  (2) advancing a lexer that holds a lookahead delivers exactly the looked-ahead
-      token, with exactly the looked-ahead span, and installs exactly the
-      scanner state that produced it;
-  (3) the history interpreter never lets an operation on a clone touch the
-      original (clones are values: `fork_frame`).
-  The refinement theorem `C05_partial` (delivered tokens of any sub-lex-free
-  history = those of its projection onto advances and filter changes) is being
-  added; until then that clause is carried by the `lexops` family + oracle.
-  The recorded finding F19 (sub-lex mark then filter change) is replayed by the
-  check.
+
+  English.  Fix a scanner, a text length and column metrics such that the scanner
+  honours its contract: `ScanOK` (a produced token is non-empty and ends inside
+  the text; at or past the end nothing is produced) and `ScanFinal` (a refusal is
+  final: if the scanner declines at a position, then in the state it was left in
+  it declines there again).  A *history* is any finite sequence of public `Lexer`
+  calls on a fresh lexer — `next`, `peek`, `next_if`, `advance_to`,
+  `advance_up_to`, `set_filter`, `with_filter`, span queries, sub-lex marks — where
+  `forkBegin … forkEnd` clones the current lexer, runs the enclosed calls on the
+  clone and drops it (`LexOps.exec`).  Its *projection* erases clone bodies,
+  `peek`, sub-lex marks and span queries and keeps the advances and filter changes.
+  What a history *delivers* is, for every advance outside clones, its result and —
+  when a token is returned — `token_span()` right after it (`LexOps.delivered`).
+
+  * `C05_partial`: a history without sub-lex marks outside clones (and without
+    metrics builders) delivers exactly what its projection delivers: lookahead and
+    cloning are unobservable.
+  * `C05_scan_state_sequential`: every token such a history delivers is a token of
+    the raw stream (scan sequentially from position zero, `Spec.rawFrom`) with that
+    raw token's span — for a stateful scanner whose tokens expose the state, the
+    state that produced a delivered token is the sequential one.
+  * `C05_statement` (the same as `C05_partial` for *all* metrics-free histories,
+    sub-lex marks included) is FALSE of the code: `C05_finding_F19` — on the text
+    `a ws b` with a filter rejecting `ws`, `with_filter; next; start_sublex;
+    set_filter(None); next` delivers `b`, its projection delivers `ws`
+    (`start_sublex` on a lexer without lookahead eagerly skips filtered tokens).
+  * `C05_needs_final_refusal`: without `ScanFinal` the partial statement is false
+    too, with no sub-lex mark: a scanner that declines once and then, re-asked at
+    the same position, produces a filtered token (`next` keeps the scanner state of
+    a declined scan, `peek` discards it).
+  * The three interim theorems are kept: (1) a lookahead on a lexer that already
+    holds one changes nothing; (2) advancing a lexer that holds a lookahead delivers
+    exactly the looked-ahead token/span/scanner state; (3) `fork_frame`.
+
+  Lean: `Lexer.*` is the model of `lexer.rs` (TephraModel.Lexer), `LexOps.*` the
+  history interpreter shared with the driver, which checks model = implementation
+  state by state on generated histories.  Unbounded: any scanner state type, token
+  type, scanner function, filter table, metrics, length, history (any nesting of
+  clones, unbalanced `forkEnd` included).
 -/
 import TephraModel.Fam.Lex
+import TephraProofs.LexOpsProof
 
 namespace Tephra.Props
 open Tephra
@@ -76,5 +104,64 @@ example : ∃ (lx : Lexer Nat Nat) (b : Buf Nat Nat), lx.buffer = some b ∧ lx.
   ⟨{ metrics := ⟨.lf, 4⟩, len := 3, scanner := 0, filter := none, recover := none,
      buffer := some ⟨1, ⟨0,0,0⟩, ⟨1,0,1⟩, 7⟩, parseStart := Pos.zero, tokenStart := Pos.zero,
      cursor := Pos.zero }, ⟨1, ⟨0,0,0⟩, ⟨1,0,1⟩, 7⟩, rfl, by decide⟩
+
+/-! ### the refinement theorem -/
+
+/-- FULL statement (false of the code because of F19 — kept as a def). -/
+def C05_statement : Prop :=
+  ∀ {σ τ : Type} (E : LexEnv σ τ) (m : Metrics) (len : Nat) (s0 : σ), ScanOK E m len → ScanFinal E m →
+  ∀ ops : List (LexOps.Op τ), LexOps.metricsFree ops = true →
+    LexOps.delivered ops (LexOps.exec E [Lexer.new s0 m len] ops)
+      = LexOps.delivered (LexOps.project ops) (LexOps.exec E [Lexer.new s0 m len] (LexOps.project ops))
+
+/-- PROVED: the same for histories without sub-lex marks outside forks. -/
+theorem C05_partial {σ τ : Type} (E : LexEnv σ τ) (m : Metrics) (len : Nat) (s0 : σ)
+    (ok : ScanOK E m len) (fin : ScanFinal E m)
+    (ops : List (LexOps.Op τ)) (hm : LexOps.metricsFree ops = true) (hs : LexOps.sublexFree ops = true) :
+    LexOps.delivered ops (LexOps.exec E [Lexer.new s0 m len] ops)
+      = LexOps.delivered (LexOps.project ops) (LexOps.exec E [Lexer.new s0 m len] (LexOps.project ops)) :=
+  LexOpsProof.partial_ ok fin s0 ops hm hs
+
+/-- The scanner state used to produce each delivered token is the state reached by
+scanning sequentially up to that token: every delivered token is a token of the
+raw stream, with exactly that raw token's span. -/
+theorem C05_scan_state_sequential {σ τ : Type} (E : LexEnv σ τ) (m : Metrics) (len : Nat) (s0 : σ)
+    (ok : ScanOK E m len) (fin : ScanFinal E m)
+    (ops : List (LexOps.Op τ)) (hm : LexOps.metricsFree ops = true) (hs : LexOps.sublexFree ops = true)
+    (t : τ) (sp : Span)
+    (h : (LexOps.Out.tok (some t), some sp) ∈ LexOps.delivered ops (LexOps.exec E [Lexer.new s0 m len] ops)) :
+    ∃ r ∈ Spec.rawFrom E.scan m (len + 1) s0 Pos.zero, r.tok = t ∧ sp = ⟨r.start, r.stop⟩ :=
+  LexOpsProof.sequential ok fin s0 ops hm hs _ h t sp rfl
+
+open LexOpsProof.Witness in
+/-- F19: the full statement fails for a stateless table scanner on `a ws b`. -/
+theorem C05_finding_F19 : ¬ C05_statement := by
+  intro h
+  have := congrArg (List.map (·.1)) (h ET mT 3 () scanT_ok scanT_final opsF19 rfl)
+  rw [F19_full, F19_projected] at this
+  simp at this
+
+open LexOpsProof.Witness in
+/-- Why `ScanFinal` is a hypothesis: with `ScanOK` alone the partial statement fails. -/
+theorem C05_needs_final_refusal :
+    ¬ (∀ {σ τ : Type} (E : LexEnv σ τ) (m : Metrics) (len : Nat) (s0 : σ), ScanOK E m len →
+      ∀ ops : List (LexOps.Op τ), LexOps.metricsFree ops = true → LexOps.sublexFree ops = true →
+        LexOps.delivered ops (LexOps.exec E [Lexer.new s0 m len] ops)
+          = LexOps.delivered (LexOps.project ops)
+              (LexOps.exec E [Lexer.new s0 m len] (LexOps.project ops))) := by
+  intro h
+  have := congrArg (List.map (·.1)) (h ER mT 2 0 scanR_ok opsR rfl rfl)
+  rw [R_full, R_projected] at this
+  simp at this
+
+open LexOpsProof.Witness in
+/-- Non-vacuity of `C05_partial` / `C05_scan_state_sequential`: a scanner with both
+contracts and a history with lookahead, a clone and span queries whose projection
+is shorter and which delivers two tokens (the filtered `ws` is skipped). -/
+example : ScanOK ET mT 3 ∧ ScanFinal ET mT ∧ LexOps.metricsFree opsN = true ∧
+    LexOps.sublexFree opsN = true ∧ (LexOps.project opsN).length < opsN.length ∧
+    LexOps.delivered opsN (LexOps.exec ET [Lexer.new () mT 3] opsN) =
+      [(.tok (some 1), some ⟨⟨0, 0, 0⟩, ⟨1, 0, 1⟩⟩), (.tok (some 2), some ⟨⟨2, 0, 2⟩, ⟨3, 0, 3⟩⟩)] :=
+  ⟨scanT_ok, scanT_final, rfl, rfl, by decide, N_full⟩
 
 end Tephra.Props
